@@ -336,7 +336,7 @@ def run(run):
             cfg_root = T.show(cfg["a"][0] if cfg.get("k") == "Call" else cfg["l"], C)
             key_ok = key_ok and "config" in cfg_root
         run.check("R2", "run-loop|runs-module-with-its-config", bool(key_ok), "each selected module must be run as (module.run)(&analysis_results, &config[&module.name]); found %s" % T.show(rc, C)[:200], site)
-        exits = [x for x in T.walk(lb) if x.get("k") in ("Return", "Continue", "Break") and not x.get("x")]
+        exits = [x for x in T.walk(lb) if x.get("k") in ("Return", "Continue", "Break") and x.get("ds") not in ("ForLoop", "WhileLoop")]
         # the desugared for loop itself contains a `break` for the None arm, which is outside lb
         run.check("R2", "run-loop|no-early-exit", not exits, "the run loop must not skip or stop early", site)
 
